@@ -21,11 +21,19 @@ Statement by statement:
       (Proofs/ClientWire.lean) under the stated peer assumption; `client_guards_allow_every_exchange`; the refinement itself is not
       trace-validated against the code, see TODO-OPEN
   sequential program ... `seq_program_accepted`, `seq_do_accepted`    proved (Proofs/ClientSeq.lean)
+  bounded per host at the Client level (host-client map + janitor, pkg/app/client) ...
+      `host_bound_across_janitor_ticks`, `dropped_host_client_has_no_connection`,
+      `janitor_must_count_busy_connections` (evicting on "no idle connection" breaks the bound)   proved
+  Connection: close sent (by the request or for MaxConnDuration) => never pooled ...
+      `close_sent_never_pooled`, `retired_connection_not_released`                                proved
+  source facts for these (ShouldRemove, cleanHostClients, shouldCloseConn, the retire-if) ...
+      `client_level_matches_source`
   returns within timeout+slack:  runtime clause, see TODO-OPEN below.
 -/
 import Hertz.Proofs.ClientPool
 import Hertz.Proofs.ClientSeq
 import Hertz.Proofs.ClientWire
+import Hertz.Proofs.ClientHosts
 namespace Hertz.Props.C10
 open Hertz.Pool
 
@@ -314,6 +322,77 @@ theorem peer_assumption_needed :
   have := h ⟨1, false⟩ unsolicitedTrace _ _ 1 0 (0, 7) rfl rfl
   revert this; decide
 
+
+/-! ## Client level: the host-client map, its janitor, MaxConnDuration (Model/ClientHosts.lean)
+
+A host entry is the `HostClient` the `Client` has in its map for the host plus the ones its 10 s
+janitor (`cleanHostClients`) has deleted from the map; events: `create` (`Client.do` finds none),
+`pool e` (a lock region of the one in the map), `tick` (the janitor visits the entry and deletes it
+when `ShouldRemove()`).  Held to the code by `c10cli` (harness/c10cli.go): the real `Client` under
+scripts with calls kept in flight across the real tick. -/
+
+/-- However requests, dial failures, closes and janitor ticks interleave, the connections counted
+against one host by all the HostClients the Client ever made for it — the one in the map and every
+dropped one — stay within the configured maximum. -/
+theorem host_bound_across_janitor_ticks (cfg : Cfg) (evs : List CEv) (h : HostEntry) (hr : crun cfg {} evs = some h) :
+    0 ≤ hostCounted h ∧ hostCounted h ≤ cfg.maxConns :=
+  hostCounted_bounds (creach_cinv hr)
+
+/-- A HostClient the janitor dropped has no connection at all: nothing idle, nothing in use,
+nothing parked in a waiter, no dial in flight, no decrement owed — nothing is leaked with it and
+nothing of it can still be open next to the connections of its replacement. -/
+theorem dropped_host_client_has_no_connection (cfg : Cfg) (evs : List CEv) (h : HostEntry)
+    (hr : crun cfg {} evs = some h) (s : State) (hs : s ∈ h.dropped) :
+    s.count = 0 ∧ s.idle = [] ∧ s.held = [] ∧ s.boxed = [] ∧ s.slots = [] ∧ s.helperSlots = 0 ∧ s.owed = [] :=
+  have i := (creach_cinv hr).dropped s hs
+  ⟨i.2, count_zero_empty i.1 i.2⟩
+
+/-- The janitor's predicate has to look at the counted connections: with "no idle connection" in
+its place (`len(c.conns) == 0`) a HostClient whose only connection is in use is dropped, the next
+request creates a second HostClient, and two connections are counted for a host with maximum 1. -/
+theorem janitor_must_count_busy_connections :
+    ∃ evs h, crunWith (fun s => s.idle.isEmpty) ⟨1, false⟩ {} evs = some h ∧ hostCounted h = 2 :=
+  ⟨[.create, .pool (.begin 0 0), .pool (.acqCreate 0), .pool (.dialOk 0 0), .tick,
+    .create, .pool (.begin 1 1), .pool (.acqCreate 1), .pool (.dialOk 1 0)], _, rfl, by decide⟩
+
+/-- An exchange in which the client sent `Connection: close` — because the request asked for it
+or because the connection was older than `MaxConnDuration` (`resetConnection`) — ends with the
+connection closed, whatever the response says. -/
+theorem close_sent_never_pooled (inPool reqClose respClose resetConn : Bool) (h : (reqClose || resetConn) = true) :
+    (verdict inPool (.done reqClose respClose resetConn)).act = .close :=
+  close_sent_closes inPool reqClose respClose resetConn h
+
+/-- The same against the scripted peer, for every fault and every peer policy (answers without the
+header and keeps the connection, answers and closes silently, echoes the header): the connection
+is not released. -/
+theorem retired_connection_not_released (inPool : Bool) (ppol : Nat) (q : CReq) (resetConn : Bool)
+    (h : (q.close || resetConn) = true) : (verdict inPool (peerAnswer ppol q resetConn).1).act ≠ .release :=
+  peerAnswer_close_not_released inPool ppol q resetConn h
+
+/-- `ShouldRemove`, the janitor's delete, the close-or-release disjunction and the statement that
+retires an old connection are, in the Go source as it stands now, what the model assumes. -/
+theorem client_level_matches_source :
+    shouldRemoveSrc = Hertz.Gen.Client.shouldRemoveBody ∧ janitorDeleteSrc = Hertz.Gen.Client.janitorDelete ∧
+    closeDecisionSrc = Hertz.Gen.Client.closeDecision ∧ retireOldConnSrc = Hertz.Gen.Client.retireOldConn :=
+  ⟨should_remove_matches_gen, janitor_delete_matches_gen, close_decision_matches_gen, retire_old_conn_matches_gen⟩
+
+/-- one call in flight across a tick: the entry stays, the second call finds the pool full -/
+def busyAcrossTick : List CEv :=
+  [.create, .pool (.begin 0 0), .pool (.acqCreate 0), .pool (.dialOk 0 0), .tick, .pool (.begin 1 1), .pool (.acqFull 1)]
+
+example : (crun ⟨1, false⟩ {} busyAcrossTick).map (fun h => (hostCounted h, h.dropped.length, h.cur.isSome)) = some (1, 0, true) := by
+  decide
+example : (crun ⟨1, false⟩ {} (busyAcrossTick.take 5 ++ [.create])).isSome = false := by decide
+-- an entry whose connection was closed is dropped and re-created
+example : (crun ⟨1, false⟩ {} [.create, .pool (.begin 0 0), .pool (.acqCreate 0), .pool (.dialOk 0 0), .pool (.close 0 0),
+    .pool (.dec 0 0 none), .pool (.endd 0 0 false), .tick, .create, .pool (.begin 0 1), .pool (.acqCreate 0)]).map
+      (fun h => (hostCounted h, h.dropped.length)) = some (1, 1) := by decide
+example : (verdict true (.done false false true)).act = .close ∧ (verdict true (.done true false false)).act = .close := by decide
+example : (peerAnswer 0 ⟨true, false, 0, 0, false⟩ true).1 = .done false false true ∧
+          (peerAnswer 2 ⟨true, true, 0, 0, false⟩ false).1 = .done true true false ∧
+          (peerAnswer 1 ⟨false, false, 0, 0, false⟩ false).1 = .done false false false := by decide
+example : Hertz.Gen.Client.shouldRemoveBody.length = 3 ∧ Hertz.Gen.Client.closeDecision.length = 3 := by decide
+
 /-
 TODO-OPEN (not proved here; checked at run time by harness/c10.go on every case):
 
@@ -341,6 +420,12 @@ TODO-OPEN (not proved here; checked at run time by harness/c10.go on every case)
    configuration; the driver's `sim.ok` conjunct is now redundant (kept as a cross-check).  Not
    covered: `Exch.upgrade` / `Exch.streamOpen` (the scripted peer never produces them; the caller
    would keep the connection past `endd`, which `step` rejects by `ownsNothing`).
+
+ * Client level: the theorems above are about one host entry; the script simulator of
+   Model/ClientHosts.lean (`cloop`, `CSim.step`: calls kept in flight, per-host HostClients, epochs
+   for MaxConnDuration) is compared with the real `Client` case by case (c10cli) and cross-checked by
+   `sim.ok` (every event it emits is accepted by `step`), but `seq_program_accepted` has not been
+   extended to it.  The janitor's period (10 s) and `MaxConnDuration` are real time in the harness.
 -/
 
 end Hertz.Props.C10
